@@ -675,6 +675,37 @@ def _is_pure(e: ast.AST) -> bool:
     return False
 
 
+_STORED_ATTRS: Optional[set] = None
+
+
+def _package_stored_attrs() -> set:
+    """Attribute names that are assigned / deleted / aug-assigned anywhere in the analysed package (other than `self.x = ...` inside __init__/__post_init__)."""
+    global _STORED_ATTRS
+    if _STORED_ATTRS is None:
+        out = set()
+        root = os.path.join(os.environ.get('KVERIF_REPO', '/repo'), 'kopf')
+        for dirpath, _dirs, files in os.walk(root):
+            for fn_ in files:
+                if fn_.endswith('.py'):
+                    try:
+                        t = ast.parse(open(os.path.join(dirpath, fn_), encoding='utf-8').read())
+                    except SyntaxError:
+                        continue
+                    inits = {id(x) for d in ast.walk(t) if isinstance(d, (ast.FunctionDef, ast.AsyncFunctionDef)) and d.name in ('__init__', '__post_init__', '__new__')
+                             for x in ast.walk(d)}
+                    for n in ast.walk(t):
+                        if isinstance(n, ast.Attribute) and isinstance(n.ctx, (ast.Store, ast.Del)) and id(n) not in inits:
+                            out.add(n.attr)
+        _STORED_ATTRS = out
+    return _STORED_ATTRS
+
+
+def _is_attr_chain(e: ast.AST) -> bool:
+    while isinstance(e, ast.Attribute):
+        e = e.value
+    return isinstance(e, ast.Name)
+
+
 def _propagate_pure(fn, known_locals: set) -> int:
     """A NEW local bound once, in the function's top-level block, to a pure expression over names that are never rebound and attributes that are never
     stored in the function, is substituted at all its (later) uses: `criterion = handler.value`, `any_present = any(v is not absent for v in values)`."""
@@ -715,7 +746,12 @@ def _propagate_pure(fn, known_locals: set) -> int:
                 calls_later = False     # an attribute read is stable only if nothing in between can change it: keep it simple -- attribute-free values may cross calls
                 if attrs:
                     calls_later = False
-                if not (free & rebound_later) and not (attrs & attr_stores) and loads == total_loads.get(tgt, 0) and 1 <= loads <= 8 \
+                # shared objects may be changed by OTHER tasks at any suspension point: a value is only repeatable up to the next await/yield
+                last_use = max((k for k, x in enumerate(later) if tgt in _names(x)), default=-1)
+                crosses_suspension = any(_has(x, ast.Await, ast.Yield, ast.YieldFrom, ast.AsyncFor, ast.AsyncWith) for x in later[:last_use + 1])
+                if crosses_suspension and _is_attr_chain(val) and attrs and not (attrs & _package_stored_attrs()):
+                    crosses_suspension = False      # `dm = memory.daemons_memory`: fields that nothing in the package ever re-binds are stable across awaits too
+                if not crosses_suspension and not (free & rebound_later) and not (attrs & attr_stores) and loads == total_loads.get(tgt, 0) and 1 <= loads <= 8 \
                         and sum(1 for _ in ast.walk(val)) <= 40 and not calls_later:
                     sub = _Subst({tgt: val})
                     for k in range(i + 1, len(body)):
